@@ -176,9 +176,9 @@ impl Driver for Attack {
             let claims: Vec<u32> = if addr.node_id == w.nodes[X].id { vec![0] } else if addr.node_id == m_id() { vec![1] } else if addr.node_id == e_id() { vec![2] } else { vec![] };
             for cl in claims {
                 for r in &self.handshake_records {
-                    // quick tier: the records that matter for the claimed identity (X: none, M's own,
-                    // X's genuine one; M: none, its own, with X's address, an older one; E: none, M's)
-                    if !self.compat && ((cl == 0 && !matches!(*r, 0 | 1 | 5)) || (cl == 1 && !matches!(*r, 0 | 1 | 3 | 6)) || (cl == 2 && !matches!(*r, 0 | 1))) {
+                    // quick tier: the records that matter for the claimed identity (X: none, M's own at
+                    // seq 1 and seq 9, X's genuine one; M: none, its own, with X's address, an older one; E: none, M's)
+                    if !self.compat && ((cl == 0 && !matches!(*r, 0 | 1 | 2 | 5)) || (cl == 1 && !matches!(*r, 0 | 1 | 3 | 6)) || (cl == 2 && !matches!(*r, 0 | 1))) {
                         continue;
                     }
                     for s in &self.handshake_sigs {
@@ -566,7 +566,7 @@ pub fn prefix_of(world: &str) -> Vec<Ev> {
 }
 
 pub fn driver(thorough: bool) -> Attack {
-    Attack { handshake_records: if thorough { vec![0, 1, 2, 3, 4, 5, 6] } else { vec![0, 1, 3, 5, 6] }, handshake_sigs: if thorough { vec![0, 1, 2, 3] } else { vec![0, 1, 2] }, replays: true, ways: true, msgs: true, halves: thorough, compat: thorough }
+    Attack { handshake_records: if thorough { vec![0, 1, 2, 3, 4, 5, 6] } else { vec![0, 1, 2, 3, 5, 6] }, handshake_sigs: if thorough { vec![0, 1, 2, 3] } else { vec![0, 1, 2] }, replays: true, ways: true, msgs: true, halves: thorough, compat: thorough }
 }
 
 pub fn regression_holds(payload: &serde_json::Value, prop: &str) -> bool {
